@@ -1,7 +1,7 @@
 (* C07 — parts of the full statement that are false of the faithful model, by witness *)
 From Coq Require Import String Ascii List Bool ZArith Arith.
 Import ListNotations.
-Require Import V.Lib.PyStr V.Lib.JTree V.Conf.Model V.Reload.Model.
+Require Import V.Lib.PyStr V.Lib.JTree V.Conf.Model V.Reload.Model V.Reload.Obs V.Reload.Idem.
 Open Scope string_scope.
 
 (* F7b (repaired).  The pinned instance() replaced environments per NAME ([fl_envs_pinned]): with e = {A:1, B:2} on the
@@ -41,3 +41,28 @@ Proof.
   split; vm_compute; reflexivity.
 Qed.
 Print Assumptions C07_scope_refuted.
+
+(* F7d (open).  "Loading and storing again does not change the stored description" is false when a component gets its
+   repeatInterval from a blueprint (or from its platform override) and not from its own definition: instance() stores the
+   layered repeatInterval but no isRepeat (FlowIRConcrete.__init__ derives isRepeat from the component's OWN
+   repeatInterval only); the concrete built from the stored file finds a repeatInterval in the component itself and
+   derives isRepeat, which the next store writes out.  This is why [clean] asks that the side layers give no
+   repeatInterval. *)
+Definition w_rep_doc : doc :=
+  {| d_blueprint := JDict [("default", JDict [("global", JDict [(WA, JDict [("repeatInterval", JInt 5)])])])];
+     d_variables := JDict [("default", JDict [("global", JDict [("a", JStr "A")])])];
+     d_components := [JDict [("name", JStr "c"); ("stage", JInt 0);
+                             ("command", JDict [("executable", JStr "echo"); ("arguments", JStr "hi")])]] |}.
+
+Theorem C07_repeat_refuted : exists d envs u p fd fd2 c' c'',
+  flatten_raw d envs u p = Some fd /\
+  flatten_raw (f_doc fd) (JDict [(DEF, JDict (f_envs fd))]) u p = Some fd2 /\
+  d_components (f_doc fd) = [c'] /\ d_components (f_doc fd2) = [c''] /\
+  get_path IR c' = None /\ get_path IR c'' = Some (JBool true) /\ ~ jeq c'' c'.
+Proof.
+  exists w_rep_doc, (JDict []), (JDict []), "p". do 4 eexists.
+  split; [vm_compute; reflexivity|]. split; [vm_compute; reflexivity|].
+  split; [reflexivity|]. split; [reflexivity|]. split; [reflexivity|]. split; [reflexivity|].
+  intros H. specialize (H IR). vm_compute in H. discriminate.
+Qed.
+Print Assumptions C07_repeat_refuted.
